@@ -132,6 +132,10 @@ def judge(line, meta, res, V, typ):
         if res["count2"] >= 1 and not res["ctxBAliveAtCall"]:
             V.violation("ran-on-dead-context", "continuation ran although its context was destroyed (%s)" % line, w)
         jc = False
+    if R == "N" and typ == "void" and res["count"] == 1 and res["count2"] != 1 and not meta.get("second"):
+        # a continuation attached from inside a running continuation is attached *after* the promise finished: exactly once
+        # (judged for void only: a value has been handed to the first continuation and cannot be delivered a second time)
+        V.violation("attach-inside-continuation got=%d" % min(res["count2"], 2), "a continuation attached to the same task from inside its running continuation ran %d times, not once (%s)" % (res["count2"], line), w)
     if res.get("canaryBad"):
         V.violation("closure-clobbered", "continuation's captures changed while it was running (%s)" % line, w)
     if jc and res["count"] != exp:
